@@ -66,6 +66,9 @@ from inscripta.biocantor.gene.biotype import Biotype  # noqa: E402
 def mktx(spec, parent=None, sequence_name="chr1", **kw):
     ex = spec["exons"]
     cds = spec.get("cds")
+    if spec.get("exon_order"):
+        # the constructor receives the exons in this order (a Location sorts its blocks; a transcript must not care either)
+        ex = [ex[i] for i in spec["exon_order"] if i < len(ex)] + [e for i, e in enumerate(ex) if i not in spec["exon_order"]]
     args = dict(
         exon_starts=[b[0] for b in ex], exon_ends=[b[1] for b in ex], strand=STRAND[spec["strand"]],
         cds_starts=[b[0] for b in cds] if cds else None, cds_ends=[b[1] for b in cds] if cds else None,
